@@ -8,6 +8,7 @@ post-condition: a normal return (without ignore_feedback) means exactly the
 data is at exactly the value's locations, nothing else changed and a lockable
 bank is locked again; a refused value sends nothing; every other outcome is
 one of the documented exceptions."""
+from common import exc_name  # noqa: E402
 from common import InfraError, hot_addr
 from props._devmem_lockstep import LockStep, judge
 from props import _devmem_memunit as mu
@@ -193,7 +194,7 @@ def derived_suite(ctx, corr):
             first = next(g)
             g.close()
         except Exception as e:  # noqa
-            first = "raises " + type(e).__name__
+            first = "raises " + exc_name(e)
         for typ in (L.MemoryType.ROM, L.MemoryType.NVM_RO, L.MemoryType.RAM_RO):
             scratch = L.MemoryBank(242, 0xfe, has_lock=True)
 
@@ -205,7 +206,7 @@ def derived_suite(ctx, corr):
             try:
                 child = derive()
             except Exception as e:  # noqa
-                corr.violate("write:derived", {"parent": parent.name, "type": str(typ)}, "declared", type(e).__name__)
+                corr.violate("write:derived", {"parent": parent.name, "type": str(typ)}, "declared", exc_name(e))
                 continue
             sent = []
             try:
@@ -219,7 +220,7 @@ def derived_suite(ctx, corr):
             except StopIteration:
                 out = "returned after " + str(len(sent)) + " commands"
             except Exception as e:  # noqa
-                out = "raises %s after %d commands" % (type(e).__name__, len(sent))
+                out = "raises %s after %d commands" % (exc_name(e), len(sent))
             if out != "raises MemoryValueNotWriteable after 0 commands":
                 corr.violate("write:derived-readonly", {"parent": parent.name, "derived locations": str(typ),
                                                         "parent written first": str(first)},
@@ -396,7 +397,7 @@ def replay(ctx, payload):
             try:
                 run_write(ls, {"unit": sc["unit"], "call": c})
             except Exception as e:  # noqa
-                print("earlier call", c, "->", type(e).__name__)
+                print("earlier call", c, "->", exc_name(e))
         end, res, badop, trace = run_write(ls, sc)
         state = ls.ask("state")
     finally:
